@@ -22,6 +22,9 @@ BUILD_FILES = ["ZapProofs/Props/C01Build.lean", "ZapProofs/BuildLemmas.lean", "Z
 POST_FILES = ["ZapProofs/Props/C07.lean", "ZapProofs/PostingLemmas.lean"]
 STORED_FILES = ["ZapProofs/Props/C02.lean", "ZapProofs/StoredLemmas.lean"]
 DV_FILES = ["ZapProofs/Props/C03.lean", "ZapProofs/DvLemmas.lean"]
+THEORY_FILES = ['ZapModel/Theory/Str.lean', 'ZapModel/Theory/Pool.lean', 'ZapModel/Theory/RefCount.lean', 'ZapModel/Theory/Lock.lean', 'ZapModel/Theory/Persist.lean', 'ZapModel/Theory/Reset.lean', 'ZapProofs/TheoryLemmasPool.lean', 'ZapProofs/TheoryLemmasRef.lean', 'ZapProofs/TheoryLemmasLock.lean', 'ZapProofs/TheoryLemmasCrit.lean', 'ZapProofs/TheoryLemmasPersist.lean', 'ZapProofs/TheoryLemmasReset.lean']
+SYN_FILES = ["ZapModel/SpecSyn.lean", "ZapProofs/SynLemmas.lean", "ZapProofs/SynMergeLemmas.lean", "ZapProofs/Props/C12.lean", "ZapProofs/Props/C13.lean"]
+VEC_FILES = ["ZapModel/VecSearch.lean", "ZapProofs/VecLemmas.lean", "ZapProofs/Props/C14.lean", "ZapProofs/Props/C15.lean", "ZapProofs/Props/C16.lean"]
 MERGE_FILES = ["ZapProofs/Props/C05.lean", "ZapProofs/Props/C06.lean", "ZapProofs/Props/C08.lean",
                "ZapProofs/MergeLemmas.lean", "ZapProofs/DictLemmas.lean"]
 
@@ -60,22 +63,81 @@ PROPS = {
               ["Zap.enumerate_spec", "Zap.C06_dict", "Zap.C06_sorted", "Zap.C06_term", "Zap.C06_same_unchanged"], MERGE_FILES),
     "C07": _p([{"gen": "C07"}], ["ZapProofs.Props.C07"],
               ["Zap.C07_run", "Zap.C07_count", "Zap.C07_live", "Zap.C07_replace"], POST_FILES),
-    "C08": _p([{"regress": "d1_stale_1hit.script"}, {"gen": "C08"}], ["ZapProofs.Props.C08"],
-              ["Zap.C08_dict", "Zap.C08_stale_1hit_counterexample", "Zap.C08_merge_writes_wf"], MERGE_FILES),
+    "C08": _p([{"regress": "d1_stale_1hit.script"}, {"gen": "C08"}], ["ZapProofs.Props.C08", "ZapProofs.Props.C08Facts"],
+              ["Zap.C08_dict", "Zap.C08_stale_1hit_counterexample", "Zap.C08_merge_writes_wf",
+               "Zap.C08Facts.sideCondition_holds", "Zap.C08Facts.read_clears_1hit", "Zap.C08Facts.count_reads_reinitialised"],
+              MERGE_FILES + ["ZapProofs/Props/C08Facts.lean"]),
     "C10": _p([{"gen": "C10"}, {"gen": "C10", "vectors": True, "seed_offset": 13},
-               {"gen": "C10", "race": True, "seed_offset": 29, "n": {"quick": 12, "thorough": 200}}], [], []),
-    "C11": _p([{"regress": "d2_pool_double_put.script"}, {"gen": "C11"}, {"gen": "C11", "race": True, "seed_offset": 29, "n": {"quick": 12, "thorough": 200}}], [], []),
-    "C12": _p([{"gen": "C12"}, {"gen": "C12", "vectors": True, "seed_offset": 13}], [], []),
-    "C13": _p([{"regress": "d4_syn_empty_lhs.script"}, {"gen": "C13"}], [], []),
-    "C17": _p([{"gen": "C17"}], [], []),
-    "C18": _p([{"gen": "C18"}], [], []),
-    "C20": _p([{"gen": "C20"}, {"gen": "C20", "race": True, "seed_offset": 29, "n": {"quick": 5, "thorough": 9}}], [], []),
-    "C09": _p([{"frozen": "default"}, {"frozen": "vectors", "vectors": True}], [], []),
-    "C14": _p([{"gen": "C14", "vectors": True}], [], [], replay_vectors=True),
-    "C15": _p([{"gen": "C15", "vectors": True}], [], [], replay_vectors=True),
+               {"gen": "C10", "race": True, "seed_offset": 29, "n": {"quick": 12, "thorough": 200}}],
+              ["ZapProofs.Props.C10", "ZapProofs.Props.C11", "ZapProofs.Props.Codec"],
+              ["Zap.C10.c10SideCondition_holds", "Zap.C10.C10_complete", "Zap.C10.C10_resetSafe", "Zap.C10.C10_no_stale",
+               "Zap.C10.C10_builder_pool_shape", "Zap.C10.C10_builder_pool", "Zap.C11.C11_pool",
+               "Zap.Props.Codec.intcoder_reuse"],
+              THEORY_FILES + ["ZapProofs/Props/C10.lean"],
+              partial="data races in the Go memory-model sense are outside the Lean model (probed by the -race runs)"),
+    "C11": _p([{"regress": "d2_pool_double_put.script"}, {"gen": "C11"},
+               {"gen": "C11", "race": True, "seed_offset": 29, "n": {"quick": 12, "thorough": 200}}],
+              ["ZapProofs.Props.C11"],
+              ["Zap.C11.poolSideCondition_holds", "Zap.C11.C11_pool", "Zap.C11.Lockset.lockSideCondition_holds", "Zap.C11.Lockset.C11_lockset"],
+              THEORY_FILES + ["ZapProofs/Props/C11.lean"],
+              partial="atomic steps at the granularity of extracted pool/lock events; Go memory model outside (probed by -race runs)"),
+    "C12": _p([{"gen": "C12"}, {"gen": "C12", "vectors": True, "seed_offset": 13}], ["ZapProofs.Props.C12", "ZapProofs.Props.Codec"],
+              ["Zap.C12_spec_meaning", "Zap.C12_synonyms", "Zap.C12_terms", "Zap.C12_unknown", "Zap.C12_not_in_dictionaries",
+               "Zap.C12_ids_consistent", "Zap.C12_wellformed", "Zap.Props.Codec.synonym_roundtrip", "Zap.Props.Codec.synonym_order"],
+              SYN_FILES),
+    "C13": _p([{"regress": "d4_syn_empty_lhs.script"}, {"gen": "C13"}], ["ZapProofs.Props.C13", "ZapProofs.Props.C06"],
+              ["Zap.C13_merged", "Zap.C13_closed", "Zap.C13_nodup_sorted", "Zap.C13_terms_vanish", "Zap.C13_thesaurus_preserved",
+               "Zap.C13_observational", "Zap.C13_id_independent", "Zap.enumerate_spec"],
+              SYN_FILES + MERGE_FILES),
+    "C17": _p([{"gen": "C17"}], ["ZapProofs.Props.C17", "ZapProofs.Props.C04"],
+              ["Zap.C17.c17SideCondition_holds", "Zap.C17.C17_persist_fault", "Zap.C17.C17_merge_fault", "Zap.C17.C17_no_fault",
+               "Zap.C17.C17_merge_outcomes", "Zap.C17.C17_writeTo_fault", "Zap.C04.footer_crc_is_crc_of_all_preceding_bytes"],
+              THEORY_FILES + ["ZapProofs/Props/C17.lean"],
+              partial="Sync/Close failures and OS write semantics are outside the model (observed through RLIMIT_FSIZE faults)"),
+    "C18": _p([{"gen": "C18"}], ["ZapProofs.Props.C18"],
+              ["Zap.C18.c18SideCondition_holds", "Zap.C18.C18_cancel_outcomes", "Zap.C18.C18_closed_before_call",
+               "Zap.C18.C18_cancel_and_fault", "Zap.C18.C18_vector_sites_release"],
+              THEORY_FILES + ["ZapProofs/Props/C18.lean"]),
+    "C20": _p([{"gen": "C20"}, {"gen": "C20", "race": True, "seed_offset": 29, "n": {"quick": 5, "thorough": 9}}],
+              ["ZapProofs.Props.C20"],
+              ["Zap.C20.refSideCondition_holds", "Zap.C20.refs_always_under_m", "Zap.C20.C20_release_once", "Zap.C20.C20_concurrent",
+               "Zap.C20.C20_concurrent_release"],
+              THEORY_FILES + ["ZapProofs/Props/C20.lean"],
+              partial="munmap / close(fd) are OS behaviour: observed through /proc, not modelled"),
+    "C09": _p([{"frozen": "default"}, {"frozen": "vectors", "vectors": True}, {"gen": "C09"}, {"gen": "C09", "vectors": True, "seed_offset": 13}],
+              ["ZapProofs.Props.Codec", "ZapProofs.Props.C04"],
+              ["Zap.Props.Codec.footer_layout", "Zap.Props.Codec.footer_size", "Zap.Props.Codec.footer_roundtrip",
+               "Zap.Props.Codec.uvarint_putUvarint", "Zap.Props.Codec.readN_putUvarints", "Zap.Props.Codec.chunk_slice",
+               "Zap.Props.Codec.intcoder_roundtrip", "Zap.Props.Codec.content_roundtrip", "Zap.Props.Codec.onehit_roundtrip",
+               "Zap.Props.Codec.onehit_tagged", "Zap.Props.Codec.general_not_onehit", "Zap.Props.Codec.freqHasLocs_roundtrip",
+               "Zap.Props.Codec.synonym_roundtrip", "Zap.Props.Codec.vectorCode_order", "Zap.Props.Codec.crc32_check",
+               "Zap.C04.footer_crc_is_crc_of_all_preceding_bytes", "Zap.C04.mem_recovered"],
+              CODEC_FILES + ["ZapProofs/CodecLemmasContent.lean"],
+              partial="FST (vellum) and roaring blobs are decoded by the real libraries and handed to the Lean decoder as an oracle table; snappy, varints, chunk tables, stored/doc-value/thesaurus/vector records and the footer+CRC are decoded natively in Lean"),
+    "C14": _p([{"gen": "C14", "vectors": True}], ["ZapProofs.Props.C14", "ZapProofs.Props.Codec"],
+              ["Zap.C14.C14_sound", "Zap.C14.C14_no_excluded", "Zap.C14.C14_only_eligible", "Zap.C14.C14_at_most_k",
+               "Zap.C14.C14_topk_exact", "Zap.C14.C14_topk_exact_filtered", "Zap.C14.C14_wrong_dim_empty", "Zap.C14.C14_no_vectors_empty",
+               "Zap.C14.C14_contract_satisfiable", "Zap.C14.C14_code_order", "Zap.Props.Codec.vectorCode_order"],
+              VEC_FILES, replay_vectors=True,
+              partial="the vector engine is a pure-Go stand-in (fakefaiss) with a stated contract; FAISS itself and the clustered (IVF) class beyond soundness are not verified"),
+    "C15": _p([{"gen": "C15", "vectors": True}], ["ZapProofs.Props.C15"],
+              ["Zap.C15.C15_vecs", "Zap.C15.C15_none_iff", "Zap.C15.C15_closure_identity", "Zap.C15.C15_closure_compose",
+               "Zap.C15.C15_admissible_union", "Zap.C15.C15_search_merged"],
+              VEC_FILES, replay_vectors=True, partial="engine stand-in; vector ids assumed distinct across inputs"),
     "C16": _p([{"regress": "d5_vec_cache_except.script", "vectors": True}, {"gen": "C16", "vectors": True},
-               {"gen": "C16", "vectors": True, "race": True, "seed_offset": 29, "n": {"quick": 20, "thorough": 300}}], [], [], replay_vectors=True),
-    "C19": _p([{"regress": "d6_vec_build_error.script", "vectors": True}, {"gen": "C19", "vectors": True}], [], [], replay_vectors=True),
+               {"gen": "C16", "vectors": True, "race": True, "seed_offset": 29, "n": {"quick": 20, "thorough": 300}}],
+              ["ZapProofs.Props.C16", "ZapProofs.Props.C11"],
+              ["Zap.C16.C16_refs_eq_open_handles", "Zap.C16.C16_handle_entry_cached", "Zap.C16.C16_not_released_while_open",
+               "Zap.C16.C16_released_exactly_once", "Zap.C16.C16_released_exactly_once_ghost", "Zap.C16.C16_cached_map_independent",
+               "Zap.C16.C16_result_history_independent", "Zap.C16.C16_first_except_counterexample", "Zap.C11.Lockset.C11_lockset"],
+              VEC_FILES, replay_vectors=True,
+              partial="eviction timing (EWMA in floats) abstracted: a tick may evict any unreferenced subset; engine stand-in"),
+    "C19": _p([{"regress": "d6_vec_build_error.script", "vectors": True}, {"gen": "C19", "vectors": True}],
+              ["ZapProofs.Props.C19"],
+              ["Zap.C19.c19SideCondition_holds", "Zap.C19.C19_engine_fault_surfaces_build", "Zap.C19.C19_engine_fault_surfaces_merge",
+               "Zap.C19.C19_indexes_released"],
+              THEORY_FILES + ["ZapProofs/Props/C19.lean", "ZapProofs/Props/C19Pre.lean"], replay_vectors=True,
+              partial="engine stand-in with fault injection; real FAISS failure modes are not exercised"),
 }
 
 
